@@ -12,8 +12,8 @@ pub static PROP: PropDef = PropDef {
     builds: opt_and_dbg,
     max_tape: 32,
     cases: |t| match t {
-        Tier::Quick => 20_000,
-        Tier::Thorough => 300_000,
+        Tier::Quick => 100_000,
+        Tier::Thorough => 1_000_000,
     },
     fixed,
     check,
